@@ -39,8 +39,23 @@ pub struct Verdict {
 
 pub fn check_stream(ls: &LangSet, code: &str, toks: &[IdTok]) -> Verdict {
     let api = ls.api(code);
+    crate::api::nt_log_start();
     let f0 = api.find(toks, 0.0);
+    let asked = crate::api::nt_log_take();
     let mut v = Verdict { n_f0: f0.len(), hints: toks.iter().filter(|t| t.sep || t.nan).count(), max_lookahead: 0, failure: None };
+    // 0. whenever the scanner asks a token whether it is unrelated to "the previous one", the token it presents must be the
+    // predecessor in the stream (the nearest earlier token that is not whitespace or a lone hyphen): hints computed from
+    // the pair (pauses between time-stamped words) are only right if the pair is right
+    for (id, prev_id) in &asked {
+        if let Some(i) = toks.iter().position(|t| t.id == *id) {
+            let expected = toks[..i].iter().rev().find(|t| !is_skipped(&t.text)).map(|t| t.id);
+            if expected != Some(*prev_id) {
+                let shown = |x: Option<u64>| x.and_then(|x| toks.iter().find(|t| t.id == x)).map(|t| format!("{:?}", t.text)).unwrap_or_else(|| "nothing".into());
+                v.failure = Some(format!("predecessor: token #{} {:?} was asked whether it is unrelated to {} but its predecessor is {}", i, toks[i].text, shown(Some(*prev_id)), shown(expected)));
+                return v;
+            }
+        }
+    }
     for &t in THRESHOLDS.iter() {
         let batch = api.find(toks, t);
         // 1. lazy == batch, then None again
@@ -200,7 +215,7 @@ pub fn run(ctx: &Ctx) -> Outcome {
     if !ctx.quick() {
         super::legs::fuzz_leg(ctx, &mut rep, 45);
     }
-    let rule = "cases = every stream of 1..3 (thorough 1..4) tokens over a 16-word alphabet per language under every assignment of the two hints to its tokens (counters exhaustive_*), and hinted grammar-noise token streams (6-20% separation hints, 4% not-a-number hints, whitespace tokens, random case, up to 40 words) at thresholds 0, 3, 10, inf: iterator output == batch output then None twice more; 0 tokens pulled before the first request and never more than up to the end of the second number after the returned one (counted with a wrapping iterator); no occurrence spans a separation-hinted token and its predecessor; hinted stream == same stream with a ',' token inserted; no occurrence contains a not-a-number token; non-trivial = stream with a recognised number or a hint";
+    let rule = "cases = every stream of 1..3 (thorough 1..4) tokens over a 16-word alphabet per language under every assignment of the two hints to its tokens (counters exhaustive_*), and hinted grammar-noise token streams (6-20% separation hints, 4% not-a-number hints, whitespace tokens, random case, up to 40 words) at thresholds 0, 3, 10, inf: iterator output == batch output then None twice more; 0 tokens pulled before the first request and never more than up to the end of the second number after the returned one (counted with a wrapping iterator); the token presented to nt_separated as `previous` is always the predecessor; no occurrence spans a separation-hinted token and its predecessor; hinted stream == same stream with a ',' token inserted; no occurrence contains a not-a-number token; non-trivial = stream with a recognised number or a hint";
     finish(ctx, rep, rule, &["hints are only placed on tokens the scanner does not skip (not on whitespace or lone hyphens)"], vec![])
 }
 
